@@ -20,6 +20,10 @@ The file system is abstracted to the destination path and the one temporary file
 
 Trusted assumptions about the operating system (they are the meaning of the four `fs…` primitives):
 * `os.open(tmp, O_WRONLY|O_CREAT|O_EXCL)` creates `tmp` and touches nothing else;
+* `fh.write` puts text into Python's buffer; a *flush* (when 8 KiB have accumulated, and at close) appends
+  buffered text to the file the descriptor refers to, in order; a flush or close that fails may have appended
+  **any prefix** of the buffered text before it raises, the rest is lost; `os.fsync` persists what was
+  flushed and nothing of the buffer;
 * writing to / closing / removing `tmp` changes only `tmp`;
 * `os.replace(tmp, dest)` is atomic on one file system: afterwards `dest` has the content of `tmp`
   and `tmp` is gone, or (when it raises) nothing changed;
@@ -75,8 +79,9 @@ inductive Fault
   | format (k : Nat) (e : Err)
   /-- the k-th call (0-based) of `fh.write` raises OSError after `sent` characters went out -/
   | write (k : Nat) (sent : Nat)
-  /-- closing (flushing) the temporary raises OSError -/
-  | close
+  /-- closing the temporary raises OSError after a prefix of the still buffered text reached the file:
+      `lines` whole lines and `chars` characters of the next one (0 0: nothing, large: everything) -/
+  | close (lines : Nat) (chars : Nat)
   /-- `os.replace` raises OSError -/
   | replace
   /-- `_handle_warnings` raises `e` (after the `with` block, i.e. after the commit) -/
@@ -88,8 +93,13 @@ inductive Fault
 /-- `os.open(temp_path, O_WRONLY | O_CREAT | O_EXCL, 0o666)` -/
 def fsCreateTmp (fs : FS) : FS := { fs with tmp := some [] }
 
-/-- `fh.write(text)` on the temporary -/
-def fsAppendTmp (fs : FS) (text : String) : FS := { fs with tmp := fs.tmp.map (· ++ [text]) }
+/-- a flush of the handle while its file is the temporary: the texts are appended to it, in order -/
+def fsFlushTmp (fs : FS) (texts : List String) : FS := { fs with tmp := fs.tmp.map (· ++ texts) }
+
+/-- a flush of a handle whose file has been renamed onto the destination (not done by the repaired code;
+    used by `exitWRenameFirst`, the refuted order) -/
+def fsFlushDest (fs : FS) (texts : List String) : FS :=
+  { fs with dest := match fs.dest with | .file c => .file (c ++ texts) | d => d }
 
 /-- `os.remove(temp_path)` (a missing file is ignored) -/
 def fsRemoveTmp (fs : FS) : FS := { fs with tmp := none }
@@ -103,14 +113,18 @@ def fsReplace (fs : FS) : Option FS :=
 
 /-! ## `MCNP_InputFile` -/
 
-/-- state of the `with` block: file system, number of `format_for_mcnp_input` calls and of `fh.write`
-    calls made so far, and `MCNP_InputFile._lineno` -/
+/-- state of the `with` block: file system, Python's buffer of the handle (text accepted by `fh.write`
+    that has not reached the file yet), the buffering policy (`autoFlush k`: the buffer is written out
+    after the k-th write call — CPython does so when 8 KiB have accumulated; the theorems hold for every
+    policy), number of `format_for_mcnp_input` calls and of `fh.write` calls made so far, and
+    `MCNP_InputFile._lineno` -/
 structure W where
   fs     : FS
+  buf    : List String
+  autoFlush : Nat → Bool
   nfmt   : Nat
   nwr    : Nat
   lineno : Nat
-  deriving DecidableEq, Repr
 
 /-- input_file.py:MCNP_InputFile.open (mode "w") with `_open_temporary`.
     Guards in the order of the source (`Gen.WriteOrder.openGuards`). Returns the exception, if any. -/
@@ -133,30 +147,69 @@ def encodable (line : String) : Bool :=
     The text is `line ++ "\n"`; the model stores the line.  A character outside the encoding makes the
     text layer raise UnicodeEncodeError before anything of this text is buffered. -/
 def doWrite (plan : Fault) (w : W) (line : String) : W × Option Err :=
+  let accept (text : String) : W :=
+    { w with buf := w.buf ++ [text], nwr := w.nwr + 1, lineno := w.lineno + 1 }
   let full : W × Option Err :=
     if encodable line then
-      ({ w with fs := fsAppendTmp w.fs line, nwr := w.nwr + 1, lineno := w.lineno + 1 }, none)
+      let w1 := accept line
+      -- the buffer is full: it is written out to the file behind the descriptor
+      (if w.autoFlush w.nwr then { w1 with fs := fsFlushTmp w1.fs w1.buf, buf := [] } else w1, none)
     else ({ w with nwr := w.nwr + 1, lineno := w.lineno + 1 }, some (.other "UnicodeEncodeError"))
   match plan with
   | .write k sent =>
-    if k = w.nwr then
-      ({ w with fs := fsAppendTmp w.fs (String.ofList (line.toList.take sent)), nwr := w.nwr + 1, lineno := w.lineno + 1 },
-       some .osError)
+    if k = w.nwr then (accept (String.ofList (line.toList.take sent)), some .osError)
     else full
   | _ => full
 
-/-- input_file.py:MCNP_InputFile.__exit__ — close; on a clean exit `os.replace`; `finally: _discard_temporary()`.
+/-- the prefix of the buffered text that reaches the file when a flush fails part-way -/
+def flushPrefix (buf : List String) (lines chars : Nat) : List String :=
+  buf.take lines ++
+    (match buf.drop lines with
+     | l :: _ => if chars = 0 then [] else [String.ofList (l.toList.take chars)]
+     | [] => [])
+
+/-- closing the handle flushes the buffer into the temporary; under `Fault.close` only a prefix gets
+    there and OSError is raised -/
+def closeW (w : W) (plan : Fault) : FS × Option Err :=
+  match plan with
+  | .close n c => (fsFlushTmp w.fs (flushPrefix w.buf n c), some .osError)
+  | _ => (fsFlushTmp w.fs w.buf, none)
+
+/-- input_file.py:MCNP_InputFile.__exit__ — **close first** (only a file that was closed without an error
+    is complete); on a clean exit `os.replace`; `finally: _discard_temporary()`.
     `exc` is the exception propagating out of the `with` body. An exception raised by close or replace
     supersedes it. -/
-def exitW (fs : FS) (exc : Option Err) (plan : Fault) : FS × Option Err :=
-  if plan = .close then (fsRemoveTmp fs, some .osError)
-  else match exc with
-    | some e => (fsRemoveTmp fs, some e)
+def exitW (w : W) (exc : Option Err) (plan : Fault) : FS × Option Err :=
+  match closeW w plan with
+  | (fs1, some e) => (fsRemoveTmp fs1, some e)
+  | (fs1, none) =>
+    match exc with
+    | some e => (fsRemoveTmp fs1, some e)
     | none =>
-      if plan = .replace then (fsRemoveTmp fs, some .osError)
-      else match fsReplace fs with
+      if plan = .replace then (fsRemoveTmp fs1, some .osError)
+      else match fsReplace fs1 with
         | some fs' => (fs', none)
-        | none => (fsRemoveTmp fs, some .osError)
+        | none => (fsRemoveTmp fs1, some .osError)
+
+/-- NOT the code: the order `os.fsync(fileno); os.replace(tmp, dest); close` of a "durability" change that
+    forgets to flush.  What has been flushed so far gets the destination's name; the text still in
+    Python's buffer is written by the close that follows — into the file that now *is* the destination —
+    and a failing close leaves it truncated with nothing to roll back.  Kept so that the refutation
+    `C15_atomic_rename_first_refuted` documents why the repaired code closes before it renames. -/
+def exitWRenameFirst (w : W) (exc : Option Err) (plan : Fault) : FS × Option Err :=
+  match exc with
+  | some e =>
+    match closeW w plan with
+    | (fs1, some ce) => (fsRemoveTmp fs1, some ce)
+    | (fs1, none) => (fsRemoveTmp fs1, some e)
+  | none =>
+    if plan = .replace then (fsRemoveTmp w.fs, some .osError)
+    else match fsReplace w.fs with
+      | none => (fsRemoveTmp w.fs, some .osError)
+      | some fs1 =>
+        match plan with
+        | .close n c => (fsFlushDest fs1 (flushPrefix w.buf n c), some .osError)
+        | _ => (fsFlushDest fs1 w.buf, none)
 
 /-! ## `MCNP_Problem.write_to_file` -/
 
@@ -230,14 +283,20 @@ def runSeq (plan : Fault) (p : Problem) : W → List Seg → W × Option Err
     | (w', some e) => (w', some e)
     | (w', none) => runSeq plan p w' t
 
-/-- mcnp_problem.py:MCNP_Problem.write_to_file over an arbitrary statement sequence.
-    Result: the exception that leaves the call (`none`: returned normally) and the file system afterwards. -/
-def writeToFileSeq (seq : List Seg) (p : Problem) (fs : FS) (overwrite : Bool) (plan : Fault) : Option Err × FS :=
+/-- the buffering policy used when none is given: everything stays in the buffer until close
+    (the case of every problem below 8 KiB) -/
+def noAutoFlush : Nat → Bool := fun _ => false
+
+/-- mcnp_problem.py:MCNP_Problem.write_to_file over an arbitrary statement sequence, buffering policy and
+    `__exit__`.  Result: the exception that leaves the call (`none`: returned normally) and the file
+    system afterwards. -/
+def writeToFileWith (exit : W → Option Err → Fault → FS × Option Err) (seq : List Seg) (p : Problem) (fs : FS)
+    (overwrite : Bool) (plan : Fault) (sched : Nat → Bool) : Option Err × FS :=
   match openW fs overwrite plan with
   | (fs0, some e) => (some e, fs0)
   | (fs1, none) =>
-    let r := runSeq plan p { fs := fs1, nfmt := 0, nwr := 0, lineno := 1 } seq
-    match exitW r.1.fs r.2 plan with
+    let r := runSeq plan p { fs := fs1, buf := [], autoFlush := sched, nfmt := 0, nwr := 0, lineno := 1 } seq
+    match exit r.1 r.2 plan with
     | (fs2, some e) => (some e, fs2)
     | (fs2, none) =>
       -- self._handle_warnings(warning_catch)
@@ -245,9 +304,15 @@ def writeToFileSeq (seq : List Seg) (p : Problem) (fs : FS) (overwrite : Bool) (
       | .warn e => (some e, fs2)
       | _ => (none, fs2)
 
-/-- mcnp_problem.py:MCNP_Problem.write_to_file as the source has it now -/
-def writeToFile (p : Problem) (fs : FS) (overwrite : Bool) (plan : Fault) : Option Err × FS :=
-  writeToFileSeq MontePyVerif.Gen.WriteOrder.sequence p fs overwrite plan
+/-- the repaired code (close, then rename) over an arbitrary statement sequence -/
+def writeToFileSeq (seq : List Seg) (p : Problem) (fs : FS) (overwrite : Bool) (plan : Fault)
+    (sched : Nat → Bool := noAutoFlush) : Option Err × FS :=
+  writeToFileWith exitW seq p fs overwrite plan sched
+
+/-- mcnp_problem.py:MCNP_Problem.write_to_file in the statement order of the source -/
+def writeToFile (p : Problem) (fs : FS) (overwrite : Bool) (plan : Fault)
+    (sched : Nat → Bool := noAutoFlush) : Option Err × FS :=
+  writeToFileSeq MontePyVerif.Gen.WriteOrder.sequence p fs overwrite plan sched
 
 /-! ## the complete output, in closed form (what the theorems compare the destination with) -/
 
@@ -303,8 +368,14 @@ def Problem.strip (p : Problem) : Problem :=
     modifiers := p.modifiers.map Fmt.strip }
 
 /-- mcnp_problem.py:MCNP_Problem.write_to_file as it is now -/
-def writeToFileNow (p : Problem) (fs : FS) (overwrite : Bool) (plan : Fault) : Option Err × FS :=
-  writeToFile p.strip fs overwrite plan
+def writeToFileNow (p : Problem) (fs : FS) (overwrite : Bool) (plan : Fault)
+    (sched : Nat → Bool := noAutoFlush) : Option Err × FS :=
+  writeToFile p.strip fs overwrite plan sched
+
+/-- NOT the code: the same writer with the refuted `__exit__` order (see `exitWRenameFirst`) -/
+def writeToFileRenameFirst (p : Problem) (fs : FS) (overwrite : Bool) (plan : Fault)
+    (sched : Nat → Bool := noAutoFlush) : Option Err × FS :=
+  writeToFileWith exitWRenameFirst MontePyVerif.Gen.WriteOrder.sequence p.strip fs overwrite plan sched
 
 /-- the complete text the repaired writer produces -/
 def renderNow (p : Problem) : Option (List String) := render p.strip
